@@ -6,7 +6,13 @@ for id in $(python3 -c "import json; print(' '.join(c['property_id'] for c in js
   s=$(date +%s)
   out=$(./check $id --tier $TIER 2>&1); rc=$?
   e=$(date +%s)
-  echo "$id rc=$rc $((e-s))s $(echo "$out" | grep -c '^KNOWN-FINDING') known; $(echo "$out" | grep -E '^VIOLATION' | head -2 | tr '\n' ' ')"
+  seen=$(echo "$out" | grep '^KNOWN-FINDING' | sed -E 's/^KNOWN-FINDING: property=[A-Z0-9]+ ([^ ]+) .*/\1/' | sort -u | tr '\n' ' ')
+  unseen=$(python3 -c "
+import json,sys
+k=json.load(open('known_findings.json')); L=k['findings'] if isinstance(k,dict) else k
+seen=set(sys.argv[2].split())
+print(' '.join(sorted({f['id'] for f in L if f['property']==sys.argv[1] and f['status']=='known'}-seen)))" $id "$seen")
+  echo "$id rc=$rc $((e-s))s $(echo "$out" | grep -c '^KNOWN-FINDING') known; $(echo "$out" | grep -E '^VIOLATION' | head -2 | tr '\n' ' ')${unseen:+ listed-known-not-seen-this-run: $unseen}"
 done
 python3-vt - <<'PY'
 import json, jsonschema, glob
